@@ -108,6 +108,73 @@ def bound_oid(target, k, j):
     return (700 + 20 * k + j) if target == "c" else (860 + 10 * k + j)
 
 
+# ---------------------------------------------------------------------------
+# several instances of ONE class whose presets differ (hasattr is a fact about the instance)
+# ---------------------------------------------------------------------------
+# component presets: where = "init_if:<p>"  -- __init__ sets it iff the constructor argument p is truthy (p is injected,
+#                                              typically from "<component name>_<p>", so it differs per component);
+#                            "init_nth:<i>" -- only the i-th constructed instance of the class sets it in __init__.
+# modes: md["class_of"] = name of an earlier mode with the same annotations / class-level presets / setup: an instance of
+#        THAT class; presets with where = "inst" are assigned on this one instance after construction.
+def comp_instances(spec, taken=None):
+    """[(component name, class index, how many instances of that class were constructed before it)] in creation order"""
+    if taken is None:
+        taken = {x[0] for x in spec["rattrs"]}
+    out, seen = [], {}
+    for n, form, i in robot_hints(spec):
+        if n.startswith("_") or n in taken or form[0] != "comp":
+            continue
+        out.append((n, form[1], seen.get(form[1], 0)))
+        seen[form[1]] = seen.get(form[1], 0) + 1
+    return out
+
+
+def flag_arg(spec, cname, p):
+    """truthiness of the constructor argument p of component cname (served by robot attributes: plain name, else prefixed)"""
+    m = {n: v for n, lvl, kind, v in spec["rattrs"] if kind == "plain" and v is not None and not n.startswith("_") and n != "logger"}
+    o = m.get(p)
+    if o is None:
+        o = m.get("%s_%s" % (cname, p))
+    if o is None:
+        return False
+    kind = [x[1] for x in spec["pool"] if x[0] == o]
+    return bool(kind) and KIND_TRUTHY[kind[0]]
+
+
+def effective_presets(spec, k, cname, nth):
+    """[(index in the class's preset list, name, value)]: what THIS instance has after construction"""
+    out = []
+    for j, (n, where, v) in enumerate(spec["comps"][k]["presets"]):
+        if where.startswith("init_if:"):
+            if not flag_arg(spec, cname, where[8:]):
+                continue
+        elif where.startswith("init_nth:"):
+            if int(where[9:]) != nth:
+                continue
+        out.append((j, n, v))
+    return out
+
+
+def instance_of(spec, cname):
+    for n, k, nth in comp_instances(spec):
+        if n == cname:
+            return k, nth
+    return None
+
+
+def mode_class_owner(spec, j):
+    """index of the mode whose class mode j is an instance of (j itself unless class_of names an earlier, identical one)"""
+    md = spec["modes"][j]
+    want = md.get("class_of")
+    if want is None:
+        return j
+    cl = lambda m: ([list(h) for h in m["hints"]], [list(x) for x in m["presets"] if x[1] != "inst"], bool(m["setup"]))
+    for i in range(j):
+        if spec["modes"][i]["name"] == want and mode_class_owner(spec, i) == i and cl(spec["modes"][i]) == cl(md):
+            return i
+    return j
+
+
 class BoundState:
     """what the harness sees of a descriptor-backed attribute at one moment"""
 
@@ -388,8 +455,8 @@ def build(spec):
         init_presets = []
         bound_ann = [dict(), dict()]
         for n, where, v in cc["presets"]:
-            if where == "init":
-                init_presets.append((n, v))
+            if where == "init" or where.startswith("init_"):
+                init_presets.append((n, v, where))
             else:
                 lvl = 0 if (where == "class0" and cc["base"]) else 1
                 if is_bound(v):
@@ -405,8 +472,13 @@ def build(spec):
 
             def mk_init(params=params, init_presets=init_presets, init=init):
                 def __init__(self, **kw):
+                    nth = sum(1 for inst, _ in b.ctor_log if type(inst) is type(self))
                     b.ctor_log.append((self, dict(kw)))
-                    for n, v in init_presets:
+                    for n, v, where in init_presets:
+                        if where.startswith("init_if:") and not kw.get(where[8:]):
+                            continue
+                        if where.startswith("init_nth:") and int(where[9:]) != nth:
+                            continue
                         if is_param(v):
                             setattr(self, n, kw[v[1]])
                         else:
@@ -457,11 +529,23 @@ def build(spec):
     # mode classes / objects
     b.modes = []
     for k, md in enumerate(spec["modes"]):
+        instp = [(n, v) for n, where, v in md["presets"] if where == "inst"]
+        owner = mode_class_owner(spec, k)
+        if owner != k:          # one more instance of an earlier mode's class; MODE_NAME is what tells them apart
+            m = cls_of[mode_cid(owner)]()
+            m.MODE_NAME = md["name"]
+            for n, v in instp:
+                setattr(m, n, val(v))
+            cls_of[mode_cid(k)] = cls_of[mode_cid(owner)]
+            b.modes.append(m)
+            continue
         d = {"__module__": NS, "MODE_NAME": md["name"],
              "__annotations__": {n: hint_obj(f) for n, f in md["hints"]}}
         initp = []
         based = {"__module__": NS}
         for n, where, v in md["presets"]:
+            if where == "inst":
+                continue
             if where == "init":
                 initp.append((n, v))
             elif is_bound(v):
@@ -482,7 +566,10 @@ def build(spec):
         mc = type("M%d" % k, (mbase,), d)
         mc.__annotations__ = mann
         cls_of[mode_cid(k)] = mc
-        b.modes.append(mc())
+        m = mc()
+        for n, v in instp:
+            setattr(m, n, val(v))
+        b.modes.append(m)
     # the robot class
     base_d = {"__module__": NS, "__annotations__": {}}
     der_d = {"__module__": NS, "__annotations__": {}}
@@ -555,9 +642,11 @@ def merged_hints(b, k):
     return comp_hints(b.spec["comps"][k])
 
 
-def watch_comp(b, k):
+def watch_comp(b, k, cname):
     cc = b.spec["comps"][k]
-    return [n for n, _ in merged_hints(b, k)] + [p for p, _ in (cc["init"] or [])] + [n for n, _, _ in cc["presets"]]
+    inst = instance_of(b.spec, cname)
+    eff = effective_presets(b.spec, k, cname, inst[1] if inst else 0)
+    return [n for n, _ in merged_hints(b, k)] + [p for p, _ in (cc["init"] or [])] + [n for _, n, _ in eff]
 
 
 def watch_mode(b, k):
@@ -577,7 +666,7 @@ def raw_snapshot(b):
             continue
         bound = {x[0]: x[2] for x in b.spec["comps"][form[1]]["presets"] if is_bound(x[2])}
         out["comps"][n] = (c, [bound_state(c, a, bound[a], True) if a in bound else getattr(c, a, MISSING)
-                               for a in watch_comp(b, form[1])])
+                               for a in watch_comp(b, form[1], n)])
     for k, m in enumerate(b.modes):
         bound = {x[0]: x[2] for x in b.spec["modes"][k]["presets"] if is_bound(x[2])}
         out["modes"].append([bound_state(m, a, bound[a], False) if a in bound else getattr(m, a, MISSING)
@@ -696,7 +785,7 @@ def _start(spec, b, res, modes):
         out = []
         for n in order:
             if n in s["comps"] and n in kof:
-                out.append([n, named(s["comps"][n][1], watch_comp(b, kof[n]), spec["comps"][kof[n]]["presets"], "c", kof[n])])
+                out.append([n, named(s["comps"][n][1], watch_comp(b, kof[n], n), spec["comps"][kof[n]]["presets"], "c", kof[n])])
             else:
                 out.append([n, None])
         return {"comps": out, "modes": [named(m, watch_mode(b, j), spec["modes"][j]["presets"], "m", j)
@@ -845,9 +934,10 @@ def analyse(spec, inherited):
             args.append((p, req(m, n, p, form, "ctor")))
         exp_ctor[n] = args
         m[n] = oid
+    nth_of = {n: nth for n, k, nth in comp_instances(spec, set(rattrs))}
     for n, k, oid in comps:
         cc = spec["comps"][k]
-        has = {x[0] for x in cc["presets"]} | {"logger"}
+        has = {x[1] for x in effective_presets(spec, k, n, nth_of.get(n, 0))} | {"logger"}      # of THIS instance
         for a, form in comp_hints(cc):
             if a.startswith("_") or a in has:
                 continue
@@ -862,6 +952,22 @@ def analyse(spec, inherited):
     return {"comps": comps, "faults": faults, "exp_ctor": exp_ctor, "exp_attr": exp_attr, "rel": rel,
             "info": info, "inj": inj, "combos": combos, "callable_reqs": callable_reqs, "callables": callables,
             "name_reqs": name_reqs}
+
+
+def shared_note(spec, cname=None, mode=None):
+    """' [one of the N components / modes of one class: ...]' when the target shares its class"""
+    if cname is not None:
+        inst = instance_of(spec, cname)
+        same = [n for n, k, _ in comp_instances(spec) if inst and k == inst[0]]
+        what = "components"
+    else:
+        o = mode_class_owner(spec, mode)
+        same = [spec["modes"][j]["name"] for j in range(len(spec["modes"])) if mode_class_owner(spec, j) == o]
+        what = "autonomous modes"
+    if len(same) < 2:
+        return ""
+    return " [one of the %d %s that are instances of ONE class, in creation order: %s; each instance's own hasattr decides]" % (
+        len(same), what, ", ".join(same))
 
 
 def bound_text(v):
@@ -918,13 +1024,16 @@ def oracle(spec, res):
                 v.append(("setup-before-all-components", "%s: component %s does not exist yet" % (when, n)))
                 return
             cc = spec["comps"][kmap[n]]
-            names = watch_comp(b, kmap[n])
-            presets = {x[0]: (["bound", bound_oid("c", kmap[n], j)] if is_bound(x[2]) else x[2]) for j, x in enumerate(cc["presets"])}
+            names = watch_comp(b, kmap[n], n)
+            inst = instance_of(spec, n)
+            presets = {a: (["bound", bound_oid("c", kmap[n], j)] if is_bound(pv) else pv)
+                       for j, a, pv in effective_presets(spec, kmap[n], n, inst[1] if inst else 0)}
             kws = dict(an["exp_ctor"][n])
             for a, got in zip(names, vals):
                 if ("c", n, a) in an["exp_attr"]:
                     if got != an["exp_attr"][("c", n, a)]:
-                        v.append(("wrong-object", "%s: %s.%s is %r, the robot stores %r" % (when, n, a, got, an["exp_attr"][("c", n, a)])))
+                        v.append(("wrong-object", "%s: %s.%s is %r, the robot stores %r%s" % (when, n, a, got, an["exp_attr"][("c", n, a)],
+                                                                                            shared_note(spec, cname=n))))
                         return
                 else:
                     if a in presets:
@@ -942,7 +1051,8 @@ def oracle(spec, res):
                                       "reading it raises AttributeError), expected %r (clause: 'attributes that already have a value are left "
                                       "untouched')" % (when, n, a, bound_text(bv), got, want)))
                             return
-                        v.append(("touched", "%s: %s.%s (preset/private/unannotated) is %r, was %r" % (when, n, a, got, want)))
+                        v.append(("touched", "%s: %s.%s (preset/private/unannotated) is %r, was %r%s" % (when, n, a, got, want,
+                                                                                                       shared_note(spec, cname=n))))
                         return
         for j, vals in enumerate(sn["modes"]):
             md = spec["modes"][j]
@@ -963,7 +1073,7 @@ def oracle(spec, res):
                                   "AttributeError), expected %r (clause: 'attributes that already have a value are left untouched')"
                                   % (when, md["name"], a, bound_text(bv), got, want)))
                         return
-                    v.append((kind, "%s: mode %s.%s is %r, expected %r" % (when, md["name"], a, got, want)))
+                    v.append((kind, "%s: mode %s.%s is %r, expected %r%s" % (when, md["name"], a, got, want, shared_note(spec, mode=j))))
                     return
     for i, sn in enumerate(res["setups"]):
         check_snap(sn, "at setup() call %d" % (i + 1))
@@ -1021,10 +1131,11 @@ def emit_case(spec, res):
     r_dir = coq_list(["(Build_rattr %s %s %s)" % (coq_string(n), kinds[k], cval(v) if k in ("plain", "callable") else "None")
                       for n, k, v in dirl])
 
-    def classdef(k):
+    def classdef(k, cname):
         cc = spec["comps"][k]
         pres = []
-        for j, (n, where, v) in enumerate(cc["presets"]):
+        inst = instance_of(spec, cname)
+        for j, n, v in effective_presets(spec, k, cname, inst[1] if inst else 0):      # what THIS instance has
             pres.append("(%s, %s)" % (coq_string(n), cpval(v, bound_oid("c", k, j))))
         note([f for _, f in comp_hints(cc)] + [f for _, f in (cc["init"] or [])])
         return "(Build_classdef %s %s %s %s %s)" % (coq_nat(comp_cid(k)), chints(cc["init"] or []), chints(comp_hints(cc)),
@@ -1034,7 +1145,7 @@ def emit_case(spec, res):
         if form[0] == "comp":
             a_classes.add(comp_cid(form[1]))
             rh.append("(%s, RClass (Build_compdef %s %s %s))" % (coq_string(n), coq_nat(500 + i),
-                      coq_bool(not spec["comps"][form[1]]["falsy"]), classdef(form[1])))
+                      coq_bool(not spec["comps"][form[1]]["falsy"]), classdef(form[1], n)))
         elif form[0] == "cls":
             rh.append("(%s, RClass (Build_compdef 4998%%nat true (Build_classdef %s [] [] [] false)))" % (coq_string(n), coq_nat(form[1])))
         else:
@@ -1401,6 +1512,22 @@ class Gen:
                             if r.random() < 0.5 and tgt not in [h[0] for h in cc["hints"]]:
                                 cc["hints"].append([tgt, 1, form])
             cc["presets"] = list(pres.values())
+            if len(users[k]) >= 2 and r.random() < 0.5:
+                # the instances of this class differ in what they already have: hasattr is a fact about the instance
+                cand = [h[0] for h in cc["hints"] if not h[0].startswith("_") and h[0] != "logger" and h[0] not in pres]
+                a = r.choice(cand) if cand and r.random() < 0.85 else r.choice(self.attr_names)
+                if a not in pres and not a.startswith("_"):
+                    v = None if r.random() < 0.15 else self.fresh(r.random() < 0.25)
+                    if r.random() < 0.4 and "sim" not in [p for p, _ in (cc["init"] or [])] and "sim" not in self.rattrs:
+                        cc["init"] = (cc["init"] or []) + [["sim", ["cls", 7]]]
+                        flags = [r.random() < 0.5 for _ in users[k]]
+                        if len(set(flags)) == 1:
+                            flags[r.randrange(len(flags))] ^= True
+                        for u, fl in zip(users[k], flags):
+                            self.rattrs["%s_sim" % u] = [self.level(), "plain", self.obj("true" if fl else "false")]
+                        cc["presets"].append([a, "init_if:sim", v])
+                    else:
+                        cc["presets"].append([a, "init_nth:%d" % r.randrange(len(users[k])), v])
         modes = []
         for j in range(r.choice([0, 0, 0, 1, 1, 2])):
             mname = ["auto", "m1", "a"][j] if r.random() < 0.8 else r.choice(self.comp_pool)
@@ -1418,6 +1545,17 @@ class Gen:
                                preset[2]]
             md["presets"] = list(pres.values())
             modes.append(md)
+        if modes and len(modes) < 3 and r.random() < 0.3:
+            # a second instance of the last mode's class; one of the two gets a value assigned on the instance
+            import copy
+            twin = copy.deepcopy(modes[-1])
+            twin["name"] = [x for x in ("twin", "m2", "b") if x not in [m["name"] for m in modes]][0]
+            twin["class_of"] = modes[-1]["name"]
+            cand = [h[0] for h in twin["hints"] if not h[0].startswith("_") and h[0] != "logger" and h[0] not in [x[0] for x in twin["presets"]]]
+            if cand and r.random() < 0.8:
+                v = None if r.random() < 0.15 else self.fresh(r.random() < 0.25)
+                (twin if r.random() < 0.5 else modes[-1])["presets"].append([r.choice(cand), "inst", v])
+            modes.append(twin)
         # a few unrelated robot attributes
         for _ in range(r.choice([0, 1, 2])):
             n = r.choice(self.attr_names + ["_p", "%s_%s" % (r.choice(self.comp_pool), r.choice(self.attr_names))])
@@ -1843,6 +1981,140 @@ def bound_spec(rng, marker, target, rstate, kind, truthy, embed, annotated=True)
     return spec
 
 
+SHARE_PATTERNS = [[1, 0], [0, 1], [1, 0, 0], [0, 1, 0], [0, 0, 1], [1, 1, 0], [0, 1, 1], [1, 0, 1]]
+SHARE_ROBOT = ["served-by-name", "served-by-prefixed-name-per-instance", "unserved"]
+SHARE_MECH = ["components/set-by-nth-constructed-instance", "components/set-iff-injected-ctor-flag", "modes/assigned-on-the-instance"]
+
+
+def shared_specs(rng, reps=1):
+    """Several instances of ONE class whose presets differ, enumerated:
+      {components whose __init__ sets the attribute in the i-th constructed instance only, components whose __init__ sets it
+       iff a constructor flag injected from '<component>_sim' is true, autonomous modes of one class with the value assigned
+       on one instance}
+      x which instances (declaration order) already have the annotated attribute: 10 01 100 010 001 110 011 101
+      x what the robot offers the others {an object under the plain name, a different object per instance under
+        '<instance>_<name>', nothing (then start-up must fail)}
+      x the preset value {an object, None, a falsy value} (rotating), every other robot embedded in a random well-formed one.
+    Each instance is judged on its own: the ones with a value keep it, the others get the robot's object (or stop start-up)."""
+    out = []
+    n = 0
+    for _ in range(reps):
+        for mech in SHARE_MECH:
+            for pat in SHARE_PATTERNS:
+                for rstate in SHARE_ROBOT:
+                    n += 1
+                    sp = shared_spec(rng, mech, pat, rstate, ["object", "None", "falsy"][n % 3], embed=n % 2 == 1)
+                    nf = len(analyse(sp, INH_STATIC)["faults"])
+                    if (nf == 0) != (rstate != "unserved"):
+                        raise AssertionError("shared family: %s %s %s has %d faults" % (mech, pat, rstate, nf))
+                    out.append(sp)
+    return out
+
+
+def shared_spec(rng, mech, pat, rstate, pkind, embed):
+    if embed:
+        spec = repair(Gen(rng, "valid").make(), 0, rng)
+    else:
+        spec = {"data_classes": [], "pool": [], "rattrs": [], "rhints": [], "rbase": rng.random() < 0.3,
+                "create_in_base": rng.random() < 0.5, "comps": [], "modes": [], "path": rng.choice(["create", "create", "init"]),
+                "env": rand_env(rng)}
+    if 20 not in {d[0] for d in spec["data_classes"]}:
+        spec["data_classes"].append([20, 0])
+    used = {x[0] for x in spec["rattrs"]} | {h[0] for h in spec["rhints"]} | {m["name"] for m in spec["modes"]}
+    for cc in spec["comps"]:
+        used |= {h[0] for h in cc["hints"]} | {x[0] for x in cc["presets"]} | {p[0] for p in (cc["init"] or [])}
+    for md in spec["modes"]:
+        used |= {h[0] for h in md["hints"]}
+    insts = [[t for t in c if t not in used][0] for c in (("left", "l2"), ("right", "r2"), ("mid", "m3"))][:len(pat)]
+    enc = [a for a in ("enc", "encoder", "enc2") if a not in used and not any("%s_%s" % (i, a) in used for i in insts)][0]
+    gain = [a for a in ("gain2", "ratio", "gain3") if a not in used][0]
+
+    def new_obj(pk, cid=0):
+        if pk in SINGLETONS:
+            for x in spec["pool"]:
+                if x[1] == pk:
+                    return x[0]
+        oid = len(spec["pool"]) + 1
+        spec["pool"].append([oid, pk, cid])
+        return oid
+
+    def lvl():
+        return rng.choice(["class", "create"] + (["base"] if spec["rbase"] else []))
+
+    def pvalue():
+        return None if pkind == "None" else new_obj("zero") if pkind == "falsy" else new_obj("inst", 20)
+    if rstate == "served-by-name":
+        spec["rattrs"].append([enc, lvl(), "plain", new_obj("inst", 20)])
+    elif rstate == "served-by-prefixed-name-per-instance":
+        for i in insts:
+            spec["rattrs"].append(["%s_%s" % (i, enc), lvl(), "plain", new_obj("inst", 20)])
+    spec["rattrs"].append([gain, lvl(), "plain", new_obj("int")])
+    if mech.startswith("components"):
+        base = rng.random() < 0.2
+        cc = {"base": base, "hints": [[enc, rng.choice([0, 1]) if base else 1, ["cls", 20]], [gain, 1, ["cls", 1]]], "init": None,
+              "init_level": 1, "presets": [], "setup": rng.random() < 0.7, "falsy": False}
+        if rng.random() < 0.5:
+            cc["hints"].reverse()
+        if "nth" in mech:
+            cc["presets"] = [[enc, "init_nth:%d" % i, pvalue()] for i, bit in enumerate(pat) if bit]
+        else:
+            cc["init"] = [["sim", ["cls", 7]]]
+            cc["presets"] = [[enc, "init_if:sim", pvalue()]]
+            for i, bit in zip(insts, pat):
+                spec["rattrs"].append(["%s_sim" % i, lvl(), "plain", new_obj("true" if bit else "false")])
+        spec["comps"].append(cc)
+        pos = sorted(rng.sample(range(len(spec["rhints"]) + len(insts)), len(insts)))
+        for i, at in zip(insts, pos):
+            spec["rhints"].insert(at, [i, "class", ["comp", len(spec["comps"]) - 1]])
+    else:
+        at = rng.randint(0, len(spec["modes"]))
+        hints = [[enc, ["cls", 20]], [gain, ["cls", 1]]]
+        if rng.random() < 0.5:
+            hints.reverse()
+        setup = rng.random() < 0.7
+        for j, (i, bit) in enumerate(zip(insts, pat)):
+            md = {"name": i, "hints": [list(h) for h in hints], "presets": [[enc, "inst", pvalue()]] if bit else [], "setup": setup}
+            if j:
+                md["class_of"] = insts[0]
+            spec["modes"].insert(at + j, md)
+    spec["rattrs"].sort(key=lambda x: x[0])
+    return spec
+
+
+def shared_stats(spec):
+    """[(components|modes, has-bits per instance in creation order | 'same')] for every class with two or more instances"""
+    out = []
+    groups = {}
+    for n, k, nth in comp_instances(spec):
+        groups.setdefault(k, []).append((n, nth))
+    for k, insts in groups.items():
+        if len(insts) < 2:
+            continue
+        differing = False
+        for a, _ in comp_hints(spec["comps"][k]):
+            bits = [int(a in {x[1] for x in effective_presets(spec, k, n, nth)}) for n, nth in insts]
+            if len(set(bits)) > 1 and not a.startswith("_"):
+                differing = True
+                out.append(("components", "".join(map(str, bits))))
+        if not differing:
+            out.append(("components", "same"))
+    mg = {}
+    for j in range(len(spec["modes"])):
+        mg.setdefault(mode_class_owner(spec, j), []).append(j)
+    for o, js in mg.items():
+        if len(js) < 2:
+            continue
+        differing = False
+        for a, _ in spec["modes"][o]["hints"]:
+            bits = [int(a in {x[0] for x in spec["modes"][j]["presets"]}) for j in js]
+            if len(set(bits)) > 1 and not a.startswith("_"):
+                differing = True
+                out.append(("modes", "".join(map(str, bits))))
+        if not differing:
+            out.append(("modes", "same"))
+    return out
+
+
 def bound_attrs(spec, an):
     """every descriptor-backed preset of the robot, classified: (marker, where, annotated?, what the robot stores)"""
     up = parents_of(spec)
@@ -2020,6 +2292,10 @@ def shrink(spec, fp):
                 c = copy.deepcopy(sp)
                 del c["modes"][j]["presets"][i]
                 yield c
+            if "class_of" in md:
+                c = copy.deepcopy(sp)
+                del c["modes"][j]["class_of"]
+                yield c
         for i in range(len(sp["rattrs"])):
             c = copy.deepcopy(sp)
             del c["rattrs"][i]
@@ -2099,7 +2375,9 @@ def run(ctx):
     specs += fspecs
     bspecs = bound_specs(ctx.rng, 1 if ctx.tier == "quick" else 6)
     specs += bspecs
-    while len(specs) < ncorpus + n_random + len(nspecs) + len(fspecs) + len(bspecs):      # the enumerations do not eat into the random part
+    sspecs = shared_specs(ctx.rng, 1 if ctx.tier == "quick" else 6)
+    specs += sspecs
+    while len(specs) < ncorpus + n_random + len(nspecs) + len(fspecs) + len(bspecs) + len(sspecs):      # the enumerations do not eat into the random part
         specs.append(gen_spec(ctx.rng))
     outs = run_many(specs)
     cases, terms = [], []
@@ -2120,6 +2398,9 @@ def run(ctx):
         if not an["faults"]:
             ctx.count("fault-free|FMS-%s|%s" % ("attached" if env["fms"] else "not-attached",
                                                 "with-modes" if any(md["hints"] for md in spec["modes"]) else "no-mode-request"))
+        for what, bits in shared_stats(spec):
+            ctx.count("one-class-several-instances=%s|already-has-the-annotated-attribute=%s|%s" % (
+                what, bits, "well-formed" if not an["faults"] else "must-fail"))
         for marker, where, kind, hinted, rs in bound_attrs(spec, an):
             ctx.count("already-has-value-by=%s|%s|%s|robot:%s" % (marker, where, hinted, rs))
             ctx.count("already-has-value-type=%s|%s" % (marker, kind))
@@ -2205,7 +2486,11 @@ def run(ctx):
                 "falsy defaults -- are enumerated {tunable, will_reset_to} x {component class, component base class, mode class, mode "
                 "base class} x {nothing, right-typed, wrong-typed, prefixed right-typed, None under the same name on the robot} x type "
                 "and drawn in the random part (already-has-value-by=*): observed is whether the class attribute is still the descriptor, "
-                "what obj.n reads and what sits in obj.__dict__ under n, "
+                "what obj.n reads and what sits in obj.__dict__ under n; several components / autonomous modes of ONE class whose "
+                "instances differ in which annotated attributes they already have (set by the i-th constructed instance only, set iff "
+                "a constructor flag injected from '<component>_sim' is true, assigned on one mode instance) are enumerated over the "
+                "patterns 10 01 100 010 001 110 011 101 x {served by name, per instance under the prefixed name, unserved} and "
+                "drawn in the random part (one-class-several-instances=*), "
                 "then 60% fault-free / 30% one planted fault / 10% wild; non-trivial = started with >= 2 components and a "
                 "cross-component reference or >= 3 injected attributes, or exactly one fault",
         "samples": samples, "exhaustive": False, "corpus_cases": ncorpus})
